@@ -18,6 +18,10 @@ Types
   T2  `struct S<const A: u64, …> { f: int, … }`  a value is the tuple of its fields in declaration order (a single `Int` when there is
                                         one field).  `Self` = the struct of the enclosing `impl`.  Const generics become explicit
                                         `Int` parameters `c0, c1, …` of every function of the struct, after `fuel`.
+  T4  `bool`                            a Lean `Bool`
+  T5  `Vec<t>`, t an integer type or `bool`     a Lean `Array Int` / `Array Bool` (one component, whatever its length); struct fields and
+                                        parameters of these types become parameters of that Lean type (consecutive parameters of one
+                                        type share a binder)
   T3  integer literals take their type from the context, by unification, default `i32` (two passes: the first only resolves
       literal types, the second emits); a literal that does not fit its type is an error.
 Items
@@ -25,7 +29,8 @@ Items
       function.  Receivers: `self`, `&self` → the struct value is a parameter; `&mut self` → additionally the function returns
       the new struct value: `Self'` if the Rust function returns `()`, `(Self' × R')` otherwise.
       `const NAME: Self = e;` inside an impl is inlined where `Self::NAME` is used.
-      Other items (`use`, `#[derive/allow/inline]`, `type`, `trait` declarations, impls that are never called) are skipped;
+      Other items (`use`, `#[derive/allow/inline]`, `type`, `trait` declarations, impls that are never called) are skipped; a
+      `struct` outside T2 (lifetime / type parameters, fields of other types) is an error only if a translated function uses it;
       `#[cfg…]`, `mod`, free `static`/`const`, `unsafe`, `extern` are errors.
   I4  `macro_rules! m { ($a:ty, $b:ty) => { impl … } }` + invocations `m!(i8, u8);`     the body is translated ONCE with the parameters
       as `IntTy` parameters; the list of invocations is emitted as `def m_instances : List (IntTy × …)`.
@@ -44,24 +49,58 @@ Expressions (integers; `t` = the static type of the operation, `T` its Lean term
   M11 `<t>::MIN`, `<t>::MAX`, `t::MIN`…  `(IntTy.minVal T)`, `(IntTy.maxVal T)`
   M12 `assert!(c)`                       [guard ¬ (⟦c⟧) ⇒ `Panic.assert`]
   M13 `e1.rem_euclid(e2)`                guards as M5, term `(Int.emod ⟦e1⟧ ⟦e2⟧)`   (the non-negative remainder)
+Expressions (`bool`)
+  B1  `true`, `false`                    `true`, `false`
+  B2  a comparison / `!` / `&&` / `||` used as a value (returned, bound by `let`, stored)      `(decide (⟦c⟧))`
+  B3  a `bool` value (variable, field, element, call) used as a condition                    `⟦e⟧ = true`
+Expressions and statements (`Vec`; the functions `SrcVec.*` are the fixed, hand-written file `Generated/VecPrelude.lean`, imported (P4)
+only by generated files that use one of these rules)
+  V1  `e[i]`, `i: usize`                 [⟦e⟧, ⟦i⟧, bind x ← SrcVec.index ⟦e⟧ ⟦i⟧], term x       (out of range ⇒ `Panic.index`)
+  V2  `e.len()`                          `(SrcVec.len ⟦e⟧)` : usize
+  V3  `vec![x; n]`                       `(SrcVec.replicate ⟦n⟧ ⟦x⟧)`       (`x` is evaluated first, then `n`)
+  V4  `(a..b).collect()`                 `(SrcVec.range ⟦a⟧ ⟦b⟧)`; only where a `Vec` of integers is expected (field initialiser, annotated `let`,
+                                        returned value); `..=`, other adaptors: error
+  V5  `Vec::new()`                       `#[]`
+  V6  `p[i] = e;`, `p[i] op= e;`         with `p` a variable or a field of a variable (`self.f`).  Rust's order is kept: the assigned value
+                                        ⟦e⟧ first (it may call `&mut self` methods, R4 — the vector is read after that), then the index ⟦i⟧,
+                                        then [bind a ← SrcVec.store ⟦p⟧ ⟦i⟧ ⟦e⟧] with its own bounds check, and `p` is rebound to `a`.
+                                        `op=` (integers only): ⟦e⟧, ⟦i⟧, [bind o ← SrcVec.index ⟦p⟧ ⟦i⟧], the checked operation M3–M5 on `o` and
+                                        ⟦e⟧, then the store
+  V7  `p.resize(n, x);`                  `p` is rebound to `(SrcVec.resize ⟦p⟧ ⟦n⟧ ⟦x⟧)`
+  V8  `p.push(x);`                       `p` is rebound to `(Array.push ⟦p⟧ ⟦x⟧)`
+      any other method on a `Vec`, slices, ranges as indices, iterators: error
 Statements (besides S1–S9, S1' and S7' of rs2lean.py)
   S10 `for i in a..b { B }`, `for _ in a..b { B }`      `let mut #i = a; let #n = b; while #i < #n { let i = #i; B; #i = #i + 1 }` with S7; the step is
                                         not overflow-checked (`#i < #n ≤ MAX`); the bounds are evaluated once, in order; `..=`, `.rev()`,
                                         other iterators: error
+  S11 `break;` inside a `while` / `for` body (at any depth of `if`s, last statement of its block)      `.ok ⟨the loop's state⟩` — the loop's
+                                        definition returns, the code after the loop goes on with that state; `continue`, `break` with
+                                        statements after it, `break` outside a loop: error (`loop { if c { break; } … }` stays S7')
+  S12 `if a || b { X } else { Y }`, `if a && b { X } else { Y }` where ⟦b⟧ has a preamble (can panic / calls)      short-circuit, by
+                                        duplication: `if a { X } else { if b { X } else { Y } }`, `if a { if b { X } else { Y } } else { Y }`;
+                                        (when ⟦b⟧ is pure the conjunction / disjunction is emitted as before; elsewhere — `while`
+                                        conditions, values — a panicking right operand is still an error)
 Expressions (structs)
   R1  `S { f: e, … }`, `Self { f }`      the tuple of the field terms (declaration order; initialisers are evaluated in source order)
   R2  `e.f`                              the component of ⟦e⟧
   R3  `*e`, `&e`, `&mut e`               ⟦e⟧
   R4  `Self::f(args)`, `e.m(args)`       [bind v ← f fuel c0 … <receiver fields> <args>]     resolved among the impls of the struct
-                                        in this file (inherent first, then trait impls); for a `&mut self` method called on a variable
-                                        the variable is rebound to the returned struct value
+                                        in this file (inherent first, then trait impls).  A `&mut self` method can be called — as a
+                                        statement or inside an expression — on a `mut` variable or `self` only: the arguments are
+                                        translated first, then the receiver is read (`x.m(x.m(a))` runs the inner call first), and the
+                                        variable is rebound to the struct value the callee returns, for the rest of the expression and
+                                        everything after it (`self.par(u) == self.par(v)`: the second call runs on the state the first
+                                        one left).  Not in index expressions or loop conditions (error)
   R5  `e1 + e2` on structs (also `- * / %`, unary `-`, `+=` …)      the function `add` of `impl Add for S` (`sub`, `mul`, `div`, `rem`, `neg`,
                                         `add_assign` …) of this file, as R4; a missing impl is an error
   R6  `x = e`, `*self = e`, `x.f = e`    S3 on the components
   R7  `e1 == e2`, `!=` on structs        component-wise, only with `#[derive(PartialEq)]` on the struct
 Loops and fuel as S7/F1, except that the loop's parameters are ordered by first occurrence in the loop's own text (condition,
 then body) instead of declaration order, so reordering the `let`s in front of a loop does not change the loop's definition;
-the const parameters are passed to every loop definition.  Recursion is not in this subset.
+the const parameters are passed to every loop definition.
+  F1  a method that calls itself (directly, not from inside one of its loops) is defined by structural recursion on the fuel, as in
+      rs2lean.py: `def f : Nat → … → Except Panic R | 0, _, … => .error .fuel | fuel + 1, p0, … => ⟦body⟧`, self-calls get `fuel`;
+      mutual recursion: error.
 """
 import json
 import os
@@ -78,6 +117,7 @@ BINOP_TRAIT = {"+": ("Add", "add"), "-": ("Sub", "sub"), "*": ("Mul", "mul"), "/
 ASSIGN_TRAIT = {"+=": ("AddAssign", "add_assign"), "-=": ("SubAssign", "sub_assign"), "*=": ("MulAssign", "mul_assign"),
                 "/=": ("DivAssign", "div_assign"), "%=": ("RemAssign", "rem_assign")}
 UNIT, BOOL = ("unit",), ("bool",)
+USIZE = ("int", "usize")
 # std::ops range types (trusted reading of std): their fields; `RangeInclusive` is read through `.start()` / `.end()`;
 # `is_empty` is `!(start < end)` for `Range` and `!(start <= end)` for a freshly built `RangeInclusive`
 STD_RANGES = {"Range": ["start", "end"], "RangeInclusive": ["start", "end"], "RangeTo": ["end"], "RangeToInclusive": ["end"], "RangeFull": []}
@@ -99,6 +139,21 @@ def resolve(t):
 def is_int(t):
     t = resolve(t)
     return isinstance(t, TVar) or (isinstance(t, tuple) and t[0] == "int")
+
+
+def is_vec(t):
+    t = resolve(t)
+    return isinstance(t, tuple) and t[0] == "vec"
+
+
+def is_struct(t):
+    t = resolve(t)
+    return isinstance(t, tuple) and t[0] == "struct"
+
+
+def is_scalar(t):
+    """one Lean component: an integer, a `bool` or a `Vec`"""
+    return is_int(t) or is_vec(t) or resolve(t) == BOOL
 
 
 # ------------------------------------------------------------------------------------------------
@@ -246,8 +301,26 @@ class TParser(Parser):
         return out
 
     def parse_struct(self, attrs):
+        """A struct outside the subset (lifetime / type parameters, fields of other types) is remembered with its error, which is
+        raised only if a translated function uses the struct."""
         t = self.expect("struct")
         name = self.ident("struct name").val
+        save = self.i
+        try:
+            self.parse_struct_body(t, name, attrs)
+        except TranslateError as e:
+            self.i = save
+            while not (self.at("{") or self.at(";")):
+                if self.peek().kind == "eof":
+                    raise e
+                self.next()
+            if self.at("{"):
+                self.skip_braces()
+            else:
+                self.next()
+            self.structs[name] = Node("struct", t.line, name=name, consts=[], fields=[], derives=[], error=e)
+
+    def parse_struct_body(self, t, name, attrs):
         consts = self.parse_const_generics()
         if not self.at("{"):
             self.err("unit / tuple structs are outside the translated subset")
@@ -258,14 +331,14 @@ class TParser(Parser):
             f = self.ident("field name").val
             self.expect(":")
             ty = self.parse_type()
-            if ty[0] != "int":
-                self.err(f"field `{f}` is not of a primitive integer type")
+            if ty[0] not in ("int", "bool", "vec"):
+                self.err(f"field `{f}` is not of a primitive integer type, `bool` or `Vec` of these")
             fields.append((f, ty))
             if not self.eat(","):
                 break
         self.expect("}")
         derives = [x for n, toks in attrs if n == "derive" for x in toks if x not in ("(", ")", ",")]
-        self.structs[name] = Node("struct", t.line, name=name, consts=consts, fields=fields, derives=derives)
+        self.structs[name] = Node("struct", t.line, name=name, consts=consts, fields=fields, derives=derives, error=None)
 
     def parse_path_with_args(self):
         """`std::ops::Add`, `Modular<M>`, `Randomable<$t>`  -> (last segment, [argument token texts])"""
@@ -416,6 +489,15 @@ class TParser(Parser):
         n = self.ident("type")
         if n.val in INT_TYPES:
             return ("int", n.val)
+        if n.val == "bool":
+            return BOOL
+        if n.val == "Vec":                                   # T5
+            self.expect("<")
+            elem = self.parse_type()
+            if elem[0] not in ("int", "bool"):
+                self.err("`Vec` of anything but primitive integers / `bool` is outside the translated subset", n)
+            self.expect(">")
+            return ("vec", elem)
         if n.val in self.structs or n.val in STD_RANGES:
             args = []
             if self.at("<"):
@@ -561,8 +643,13 @@ class TParser(Parser):
                     e = Node("mcall", t.line, recv=e, name=m.val, args=self.parse_args())
                 else:
                     e = Node("field", t.line, e=e, name=m.val)
-            elif self.at("(") or self.at("["):
-                self.err("call / index on an expression is outside the translated subset")
+            elif self.at("["):                               # V1
+                self.next()
+                i = self.parse_expr()
+                self.expect("]")
+                e = Node("index", t.line, e=e, idx=i)
+            elif self.at("("):
+                self.err("call on an expression is outside the translated subset")
             else:
                 return e
 
@@ -595,6 +682,9 @@ class TParser(Parser):
             n = self.ident("macro parameter").val
             self.expect("::")
             return Node("tyconst", t.line, ty=("int", "$" + n), name=self.ident("associated constant").val)
+        if t.kind == "ident" and t.val in ("true", "false"):                                # B1
+            self.next()
+            return Node("boollit", t.line, value=t.val)
         if t.kind == "ident" and t.val in ("if", "match", "loop", "while", "for", "unsafe", "move", "return", "break", "continue"):
             self.err(f"`{t.val}` in expression position is outside the translated subset")
         if t.kind != "ident" or (t.val in KEYWORDS and t.val not in ("self", "Self")):
@@ -607,8 +697,16 @@ class TParser(Parser):
             path.append(self.ident("path segment").val)
         if self.at("!") and (self.at("(", 1) or self.at("[", 1) or self.at("{", 1)):
             self.next()
+            if path == ["vec"] and self.at("["):                                            # V3: `vec![x; n]`
+                self.next()
+                x = self.parse_expr()
+                if not self.eat(";"):
+                    self.err("only the form `vec![x; n]` of `vec!` is in the translated subset", t)
+                n = self.parse_expr()
+                self.expect("]")
+                return Node("vecrep", t.line, x=x, n=n)
             if len(path) != 1 or path[0] != "assert":
-                self.err(f"macro `{'::'.join(path)}!` is outside the translated subset (only `assert!`)", t)
+                self.err(f"macro `{'::'.join(path)}!` is outside the translated subset (only `assert!`, `vec![x; n]`)", t)
             args = self.parse_args()
             if len(args) != 1:
                 self.err("`assert!` with a message is outside the translated subset", t)
@@ -693,8 +791,8 @@ def mentioned(node, acc):
 
 
 class Ctx:
-    def __init__(self, kind, on_fall=None, on_value=None):
-        self.kind, self.on_fall, self.on_value = kind, on_fall, on_value
+    def __init__(self, kind, on_fall=None, on_value=None, on_break=None):
+        self.kind, self.on_fall, self.on_value, self.on_break = kind, on_fall, on_value, on_break
 
 
 def flat(val):
@@ -717,6 +815,7 @@ class FnEmitter:
         self.tr, self.fn, self.body, self.file = tr, fn, body, tr.file
         self.lit = literal_types         # id(node) -> TVar (pass 1 fills it, pass 2 reads the resolved types)
         self.defs, self.loop_count, self.uid = [], 0, 0
+        self.loop_depth = 0
         self.imp = fn.impl
 
     def err(self, line, msg):
@@ -738,6 +837,8 @@ class FnEmitter:
             return getattr(self.imp, "self_ty", ("struct", self.imp.self_name))
         if ty[0] == "int":
             return sub.get(ty[1], ty)
+        if ty[0] == "vec":
+            return ("vec", self.norm_ty(ty[1]))
         if ty[0] == "struct":
             if ty[1] in STD_RANGES:
                 if ty[1] == "RangeFull":
@@ -774,6 +875,8 @@ class FnEmitter:
             return b
         if isinstance(b, TVar):
             return self.unify(b, a, line)
+        if a[0] == "vec" and b[0] == "vec":
+            return ("vec", self.unify(a[1], b[1], line))
         if a != b:
             self.err(line, f"type mismatch: {self.show_ty(a)} vs {self.show_ty(b)} (mixed-type arithmetic needs an explicit `as`)")
         return a
@@ -781,6 +884,8 @@ class FnEmitter:
     @staticmethod
     def show_ty(t):
         t = resolve(t)
+        if not isinstance(t, TVar) and t[0] == "vec":
+            return f"Vec<{FnEmitter.show_ty(t[1])}>"
         return "{integer}" if isinstance(t, TVar) else t[1] if len(t) > 1 else t[0]
 
     def fields_of(self, ty, line):
@@ -792,21 +897,61 @@ class FnEmitter:
         s = self.tr.struct(ty[1], line)
         return s.fields
 
+    def comps(self, ty, line):
+        """the Lean types of the components a value of `ty` is made of (T1, T2, T4, T5)"""
+        ty = resolve(ty)
+        if isinstance(ty, TVar) or ty[0] == "int":
+            return ["Int"]
+        if ty == BOOL:
+            return ["Bool"]
+        if ty[0] == "vec":
+            return ["Array Bool" if resolve(ty[1]) == BOOL else "Array Int"]
+        return [c for _, f in self.fields_of(ty, line) for c in self.comps(f, line)]
+
     def lean_ret(self, ty):
         ty = resolve(ty)
         if ty == UNIT:
             return "Unit"
-        if ty[0] == "int":
-            return "Int"
-        return " × ".join("Int" for _ in self.fields_of(ty, self.fn.line))
+        return " × ".join(self.comps(ty, self.fn.line))
+
+    def same(self, got, want, line, what):
+        """`got` must be the type `want` (integer literals and element types are unified)"""
+        if is_int(got) and is_int(want) or is_vec(got) and is_vec(want):
+            return self.unify(got, want, line)
+        if resolve(got) != resolve(want):
+            self.err(line, what)
+        return resolve(want)
 
     # -- expressions --------------------------------------------------------------------------------
     def expr(self, e, env, ctx, st, want=None):
         """-> (preamble, value, type); value = Lean term, or list of terms for a struct with several fields."""
         pre, val, ty = self.expr0(e, env, ctx, st, want)
-        if want is not None and is_int(ty) and is_int(want):
+        if want is not None and (is_int(ty) and is_int(want) or is_vec(ty) and is_vec(want)):
             ty = self.unify(ty, want, e.line)
         return pre, val, ty
+
+    def rebind(self, env, uid, val, st):
+        """R4: a `&mut self` method call inside an expression gives its receiver variable a new value.  `env` is the private copy of the
+        statement being translated (`stmts` copies it), so the rest of this statement and what follows it see the new value."""
+        for i, x in enumerate(env):
+            if x.uid == uid:
+                env[i] = x.with_val(val)
+        st["rebinds"] = st.get("rebinds", 0) + 1
+
+    @staticmethod
+    def strip_refs(e):
+        while e.kind in ("deref", "ref"):
+            e = e.e
+        return e
+
+    def place_of(self, e):
+        """`x`, `*self`, `x.f`, `self.f` -> the expression itself (a place whose variable can be rebound), else None"""
+        t = self.strip_refs(e)
+        if t.kind == "var":
+            return t
+        if t.kind == "field" and self.strip_refs(t.e).kind == "var":
+            return t
+        return None
 
     def const_generic(self, name):
         for i, (n, ty) in enumerate(self.imp.consts):
@@ -832,6 +977,35 @@ class FnEmitter:
                 if not lo <= e.value <= hi:
                     self.err(e.line, f"literal {e.value} does not fit `{t[1]}`")
             return [], f"({e.value} : Int)", tv
+        if k == "boollit":                                                                 # B1
+            return [], e.value, BOOL
+        if k == "index":                                                                   # V1
+            p1, v1, t1 = self.expr(e.e, env, ctx, st)
+            if not is_vec(t1):
+                self.err(e.line, "indexing of a value that is not a `Vec` is outside the translated subset")
+            before = st.get("rebinds", 0)
+            p2, v2, t2 = self.expr(e.idx, env, ctx, st, USIZE)
+            if st.get("rebinds", 0) != before:
+                self.err(e.line, "an index expression that changes a variable through `&mut` is outside the translated subset")
+            if not is_int(t2):
+                self.err(e.line, "an index that is not an integer (ranges / slices are outside the translated subset)")
+            self.unify(t2, USIZE, e.line)
+            x = self.fresh(st)
+            return p1 + p2 + [("bind", f"SrcVec.index {v1} {v2}", x)], x, resolve(t1)[1]
+        if k == "vecrep":                                                                  # V3
+            elem = resolve(want)[1] if want is not None and is_vec(want) else None
+            p1, v1, t1 = self.expr(e.x, env, ctx, st, elem)
+            if not (is_int(t1) or resolve(t1) == BOOL):
+                self.err(e.line, "`vec![x; n]` with an element that is neither an integer nor a `bool`")
+            p2, v2, t2 = self.expr(e.n, env, ctx, st, USIZE)
+            if not is_int(t2):
+                self.err(e.line, "`vec![x; n]`: the length is not an integer")
+            self.unify(t2, USIZE, e.line)
+            self.tr.uses_vec = True
+            return p1 + p2, f"(SrcVec.replicate {v2} {v1})", ("vec", t1)
+        if k in ("cmp", "and", "or", "not"):                                               # B2
+            pre, c = self.cond(e, env, ctx, st)
+            return pre, f"(decide ({c}))", BOOL
         if k == "var":
             v = lookup(env, e.name)
             if v is not None:
@@ -873,7 +1047,8 @@ class FnEmitter:
                 self.err(e.line, "the struct literal must initialise exactly the fields of the struct")
             pre, got = [], {}
             for n, fe in e.fields:
-                p, v, _ = self.expr(fe, env, ctx, st, dict(fs)[n])
+                p, v, fty = self.expr(fe, env, ctx, st, dict(fs)[n])
+                self.same(fty, dict(fs)[n], fe.line, f"field `{n}` is initialised with a value of another type")
                 pre += p
                 got[n] = v
             vals = [got[n] for n, _ in fs]
@@ -930,12 +1105,10 @@ class FnEmitter:
         if k == "mcall":
             return self.method_call(e, env, ctx, st, want)
         if k == "call":
-            return self.path_call(e, env, ctx, st)
+            return self.path_call(e, env, ctx, st, want)
         if k == "assert":                                                                  # M12
             pre, c = self.cond(e.cond, env, ctx, st)
             return pre + [("guard", f"¬ ({c})", "assert")], "()", UNIT
-        if k in ("cmp", "and", "or", "not"):
-            self.err(e.line, "boolean values outside `if` / `while` / `assert!` conditions are outside the translated subset")
         if k == "range":
             self.err(e.line, "a range value is only supported as the receiver of a method call")
         self.err(e.line, f"expression `{k}` has no translation rule here")
@@ -952,7 +1125,7 @@ class FnEmitter:
 
     def call_fn(self, fn, recv, args, line, st):
         """Common part of R4/R5: `recv`, `args` are translated (preamble, value, type) triples.  -> (pre, value, type, new receiver value or None)"""
-        callee = self.tr.request(fn, line, self.fn)
+        callee = self.tr.request(fn, line, self.fn, self.loop_depth > 0)
         pre, terms = [], []
         if (fn.recv is None) != (recv is None):
             self.err(line, f"`{fn.name}` is {'not ' if fn.recv is None else ''}a method")
@@ -964,17 +1137,14 @@ class FnEmitter:
         sub = FnEmitter(self.tr, fn, None, self.lit)
         for (p, v, ty), (_, _, pty) in zip(args, fn.params):
             pty = sub.norm_ty(pty)
-            if is_int(pty):
-                self.unify(ty, pty, line)
-            elif resolve(ty) != pty:
-                self.err(line, f"argument of `{fn.name}` has the wrong type")
+            self.same(ty, pty, line, f"argument of `{fn.name}` has the wrong type")
             pre += p
             terms += flat(v)
         consts = [f"c{i}" for i in range(len(self.imp.consts))]
         call = " ".join([callee, "fuel"] + self.tr.extra_params(self) + consts + terms)
         rty = sub.norm_ty(fn.ret)
-        self_n = len(sub.fields_of(sub.norm_ty(("self",)), line)) if fn.recv == "refmut" else 0
-        ret_n = 0 if rty == UNIT else 1 if rty[0] == "int" else len(sub.fields_of(rty, line))
+        self_n = len(sub.comps(sub.norm_ty(("self",)), line)) if fn.recv == "refmut" else 0
+        ret_n = 0 if rty == UNIT else len(sub.comps(rty, line))
         names = [self.fresh(st) for _ in range(self_n + ret_n)]
         pre.append(("bind", call, tup(names) if names else "_"))
         new_self = (names[0] if self_n == 1 else names[:self_n]) if self_n else None
@@ -983,6 +1153,19 @@ class FnEmitter:
         return pre, val, rty, new_self
 
     def method_call(self, e, env, ctx, st, want):
+        if e.recv.kind == "range" and e.name == "collect" and not e.args:                  # V4: `(a..b).collect()`
+            r = e.recv
+            if want is None or not is_vec(want) or r.inclusive:
+                self.err(e.line, "`(a..b).collect()` is only translated where a `Vec` of integers is expected (struct field, annotated "
+                                 "`let`, returned value)")
+            elem = resolve(want)[1]
+            pl, vl, tl = self.expr(r.lo, env, ctx, st, elem)
+            ph, vh, th = self.expr(r.hi, env, ctx, st, elem)
+            if not (is_int(tl) and is_int(th) and is_int(elem)):
+                self.err(r.line, "range bounds that are not integers")
+            self.unify(self.unify(tl, th, r.line), elem, r.line)
+            self.tr.uses_vec = True
+            return pl + ph, f"(SrcVec.range {vl} {vh})", ("vec", elem)
         if e.recv.kind == "range":                                                        # `(lo..hi).m(…)`: the range value is built in place
             r = e.recv
             pl, vl, tl = self.expr(r.lo, env, ctx, st)
@@ -1013,8 +1196,14 @@ class FnEmitter:
                 return p1 + p2, f"(IntTy.wrap {self.lean_ty(ty, e.line)} ({v1} {op} {v2}))", ty
             self.err(e.line, f"method `.{e.name}()` on an integer is outside the translated subset")
         t1r = resolve(t1)
+        if is_vec(t1r):
+            if e.name == "len" and not e.args:                                             # V2
+                self.tr.uses_vec = True
+                return p1, f"(SrcVec.len {v1})", USIZE
+            self.err(e.line, f"method `.{e.name}()` on a `Vec` is outside the translated subset here (`.len()`; `.resize(n, x)` and "
+                             "`.push(x)` as statements)")
         if isinstance(t1r, TVar) or t1r[0] != "struct":
-            self.err(e.line, f"method `.{e.name}()` on an integer is outside the translated subset")
+            self.err(e.line, f"method `.{e.name}()` on a value that is not a struct of this file is outside the translated subset")
         if t1r[1] == "RangeInclusive" and e.name in ("start", "end") and not e.args:      # accessors of std's RangeInclusive
             return p1, flat(v1)[0 if e.name == "start" else 1], t1r[2]
         fn = self.tr.find_method(t1r, e.name, e.line)
@@ -1022,12 +1211,29 @@ class FnEmitter:
                 for a, (_, _, pt) in zip(e.args, fn.params)]
         if len(args) != len(e.args):
             self.err(e.line, f"`{fn.name}` takes {len(fn.params)} arguments")
-        pre, val, ty, new_self = self.call_fn(fn, (p1, v1, t1), args, e.line, st)
-        if new_self is not None:
-            self.err(e.line, "a `&mut self` method call in expression position is outside the translated subset (use it as a statement)")
+        if fn.recv != "refmut":
+            pre, val, ty, _ = self.call_fn(fn, (p1, v1, t1), args, e.line, st)
+            return pre, val, ty
+        # R4, `&mut self`: the receiver must be a `mut` variable (or `self`); it is read AFTER the arguments have been evaluated
+        # (two-phase borrow: `x.m(x.m(a))` runs the inner call first) and rebound to the struct value the callee returns
+        rv = self.strip_refs(e.recv)
+        var = lookup(env, rv.name) if rv.kind == "var" else None
+        if var is None or p1:
+            self.err(e.line, f"`{fn.name}` takes `&mut self`: its receiver must be a plain variable in the translated subset")
+        if not var.mut:
+            self.err(e.line, f"`{fn.name}` takes `&mut self` but `{rv.name}` is not mutable")
+        pre, val, ty, new_self = self.call_fn(fn, ([], var.val, var.ty), args, e.line, st)
+        self.rebind(env, var.uid, new_self, st)
         return pre, val, ty
 
-    def path_call(self, e, env, ctx, st):                                                  # R4
+    def path_call(self, e, env, ctx, st, want=None):                                       # R4
+        if e.path == ["Vec", "new"] and not e.args:                                        # V5
+            elem = self.lit.setdefault(id(e), TVar())       # fixed by pass 1 (annotation, `push`, field …); an integer type by default
+            if want is not None and is_vec(want):
+                self.unify(elem, resolve(want)[1], e.line) if is_int(resolve(want)[1]) else None
+                elem = resolve(want)[1] if not is_int(resolve(want)[1]) else elem
+            ty = ("vec", elem)
+            return [], f"(#[] : {self.comps(ty, e.line)[0]})", ty
         if len(e.path) == 2 and e.path[0] in ("Self", self.imp.self_name):
             fn = self.tr.find_fn(self.imp.self_name, e.path[1], e.line)
             sub = FnEmitter(self.tr, fn, None, self.lit)
@@ -1049,7 +1255,9 @@ class FnEmitter:
             if is_int(t1):
                 self.unify(t1, t2, e.line)
                 return p1 + p2, f"{v1} {op} {v2}"
-            if resolve(t1) != resolve(t2) or e.op not in ("==", "!="):                      # R7
+            if resolve(t1) == BOOL and resolve(t2) == BOOL and e.op in ("==", "!="):
+                return p1 + p2, f"{v1} {op} {v2}"
+            if not is_struct(t1) or resolve(t1) != resolve(t2) or e.op not in ("==", "!="):                      # R7
                 self.err(e.line, "comparison of values that are not integers")
             if "PartialEq" not in self.tr.struct(resolve(t1)[1], e.line).derives:
                 self.err(e.line, "`==` on a struct without `#[derive(PartialEq)]` is outside the translated subset")
@@ -1070,7 +1278,11 @@ class FnEmitter:
             if isinstance(ty, TVar) or ty[0] != "struct" or ty[1] not in ("Range", "RangeInclusive"):
                 self.err(e.line, "`.is_empty()` is only translated for `Range` and `RangeInclusive`")
             return p, f"¬ ({v[0]} {'<' if ty[1] == 'Range' else '≤'} {v[1]})"
-        self.err(e.line, "a condition must be built from comparisons with `!`, `&&`, `||`")
+        if k in ("var", "field", "index", "mcall", "boollit", "deref", "ref", "call"):     # B3: a `bool` value used as a condition
+            p, v, ty = self.expr(e, env, ctx, st)
+            if resolve(ty) == BOOL:
+                return p, f"{v} = true"
+        self.err(e.line, "a condition must be built from comparisons and `bool` values with `!`, `&&`, `||`")
 
     @staticmethod
     def wrap(pre, body, ind):
@@ -1093,12 +1305,12 @@ class FnEmitter:
         if after is None:
             octx = ctx
             fall = (lambda env2: octx.on_fall(leave(env2))) if octx.on_fall else None
-            ctx = Ctx(octx.kind, fall, octx.on_value)
+            ctx = Ctx(octx.kind, fall, octx.on_value, octx.on_break)
         return self.stmts(blk.stmts, blk.tail, blk.line, env, ctx, st, aft, ind)
 
     def bind_names(self, ty, st):
         ty = resolve(ty)
-        if is_int(ty):
+        if is_scalar(ty):
             return self.fresh(st)
         n = len(self.fields_of(ty, self.fn.line))
         names = [self.fresh(st) for _ in range(n)]
@@ -1145,7 +1357,8 @@ class FnEmitter:
                     self.err(tail.line, "the value of a block that is not in tail position is dropped: outside the translated subset")
                 if ctx.on_value is None:
                     self.err(tail.line, "a `while` body that ends in a value is outside the translated subset")
-                pre, v, ty = self.expr(tail, env, ctx, st, self.norm_ty(self.fn.ret) if is_int(self.norm_ty(self.fn.ret)) else None)
+                env = list(env)
+                pre, v, ty = self.expr(tail, env, ctx, st, self.norm_ty(self.fn.ret) if is_scalar(self.norm_ty(self.fn.ret)) else None)
                 return self.wrap(pre, [ind + ctx.on_value(env, v, ty, tail.line)], ind)
             if after is not None:
                 return after(env)
@@ -1154,14 +1367,20 @@ class FnEmitter:
             return [ind + x for x in ctx.on_fall(env)]
         s, rest = stmts[0], stmts[1:]
         k = s.kind
+        env = list(env)          # private copy: `&mut self` calls inside this statement's expressions rebind their receiver in it (R4)
 
         def go(env2):
             return self.stmts(rest, tail, line, env2, ctx, st, after, ind)
 
         if k == "scope":                                                                    # first copy of a `loop` body (S7')
             return self.block(s.body, env, ctx, st, go, ind)
+        if k == "break" and ctx.on_break is not None:                                       # S11: leave the innermost `while` / `for`
+            if rest:
+                self.err(rest[0].line, "statements after `break` are outside the translated subset")
+            return [ind + x for x in ctx.on_break(env)]
         if k in ("break", "continue"):
-            self.err(s.line, f"`{k}` other than the single `if c {{ break; }}` at the head or tail of a `loop` is outside the translated subset")
+            self.err(s.line, f"`{k}` here is outside the translated subset (`break` inside a `while` / `for` body; `if c {{ break; }}` at the "
+                             "head or tail of a `loop`)")
         if k == "for":                                                                      # S10: counted loop
             it = s.iter
             if it.kind != "range" or it.inclusive or s.pat.kind not in ("pvar", "pwild"):
@@ -1183,17 +1402,21 @@ class FnEmitter:
             if s.pat.kind == "ptuple":
                 self.err(s.line, "tuple patterns are outside the translated subset")
             ann = self.norm_ty(s.ann) if getattr(s, "ann", None) is not None else None
-            pre, v, ty = self.expr(s.expr, env, ctx, st, ann if ann is not None and is_int(ann) else None)
+            pre, v, ty = self.expr(s.expr, env, ctx, st, ann if ann is not None and is_scalar(ann) else None)
             if ann is not None:                                                             # S1': the annotation must be the initialiser's type
-                if is_int(ann) and is_int(ty):
-                    self.unify(ty, ann, s.line)
-                elif resolve(ty) != ann:
-                    self.err(s.line, "the type annotation of `let` is not the type of its initialiser")
+                self.same(ty, ann, s.line, "the type annotation of `let` is not the type of its initialiser")
             if s.pat.kind == "pwild":
                 return self.wrap(pre, go(env), ind)
             names = self.bind_names(ty, st)
             env2 = env + [Var(self.new_uid(), s.pat.name, names, s.mut, ty)]
             return self.wrap(pre, self.lets(names, v, ind) + go(env2), ind)
+        if k == "expr" and s.expr.kind == "assign" and self.strip_refs(s.expr.target).kind == "index":
+            return self.index_assign(s.expr, env, ctx, st, go, ind)
+        if k == "expr" and s.expr.kind == "mcall" and s.expr.name in ("resize", "push") and self.place_of(s.expr.recv) is not None:
+            place = self.place_of(s.expr.recv)
+            _, v0, t0 = self.expr(place, env, ctx, st)
+            if is_vec(t0):
+                return self.vec_stmt(s.expr, place, v0, resolve(t0)[1], env, ctx, st, go, ind)
         if k == "expr" and s.expr.kind == "assign":
             a = s.expr
             box = {}
@@ -1212,14 +1435,13 @@ class FnEmitter:
                     box["pre"] = pre
                     return self.lets(n, v, ind), n
                 if a.op == "=":
-                    pre, v, t2 = self.expr(a.expr, env, ctx, st)
-                    if resolve(t2) != resolve(ty):
-                        self.err(a.line, "assignment of a value of another type")
+                    pre, v, t2 = self.expr(a.expr, env, ctx, st, ty if is_scalar(ty) else None)
+                    self.same(t2, ty, a.line, "assignment of a value of another type")
                     names = self.bind_names(ty, st)
                     box["pre"] = pre
                     return self.lets(names, v, ind), names
                 tr_, fn_ = ASSIGN_TRAIT.get(a.op, (None, None))                             # R5: `x op= e` on a struct
-                if tr_ is None:
+                if tr_ is None or not is_struct(ty):
                     self.err(a.line, f"`{a.op}` is outside the translated subset")
                 fn = self.tr.find_fn(resolve(ty)[1], fn_, a.line, trait=tr_)
                 arg = self.expr(a.expr, env, ctx, st)
@@ -1245,8 +1467,17 @@ class FnEmitter:
             if ctx.on_value is None:
                 self.err(s.line, "`return` inside a `while` body is outside the translated subset")
             rt = self.norm_ty(self.fn.ret)
-            pre, v, ty = self.expr(s.expr, env, ctx, st, rt if is_int(rt) else None)
+            pre, v, ty = self.expr(s.expr, env, ctx, st, rt if is_scalar(rt) else None)
             return self.wrap(pre, [ind + ctx.on_value(env, v, ty, s.line)], ind)
+        if k == "if" and s.cond.kind in ("or", "and") and self.can_panic(s.cond.r, env, ctx, st):   # S12: short-circuit evaluation
+            c = s.cond
+            if c.kind == "or":      # `if a || b { X } else { Y }`  =  `if a { X } else { if b { X } else { Y } }`
+                inner = Node("if", c.r.line, cond=c.r, then=s.then, els=s.els)
+                des = Node("if", s.line, cond=c.l, then=s.then, els=Node("block", c.r.line, stmts=[inner], tail=None))
+            else:                   # `if a && b { X } else { Y }`  =  `if a { if b { X } else { Y } } else { Y }`
+                inner = Node("if", c.r.line, cond=c.r, then=s.then, els=s.els)
+                des = Node("if", s.line, cond=c.l, then=Node("block", c.r.line, stmts=[inner], tail=None), els=s.els)
+            return self.stmts([des] + rest, tail, line, env, ctx, st, after, ind)
         if k == "if":
             pre, c = self.cond(s.cond, env, ctx, st)
             if not rest and tail is None:
@@ -1268,24 +1499,83 @@ class FnEmitter:
             return self.while_loop(s, env, ctx, st, go, ind)
         self.err(s.line, f"statement `{k}` has no translation rule")
 
+    def can_panic(self, c, env, ctx, st):
+        """does the translation of condition `c` have a preamble (a step that can panic, or a call)?  Dry run on copies."""
+        pre, _ = self.cond(c, list(env), ctx, dict(st))
+        return bool(pre)
+
+    def index_assign(self, a, env, ctx, st, go, ind):
+        """V6: `v[i] = e;` / `v[i] op= e;` with `v` a variable or a field of a variable.  Rust's order: the assigned value `e` first
+        (it may call `&mut self` methods: the vector is read afterwards), then the index `i`, then the bounds check of the store."""
+        tgt = self.strip_refs(a.target)
+        place = self.place_of(tgt.e)
+        if place is None:
+            self.err(a.line, "only `x[i]` / `x.f[i]` with a variable `x` can be assigned to in the translated subset")
+        _, _, t0 = self.expr(place, env, ctx, st)
+        if not is_vec(t0):
+            self.err(a.line, "indexed assignment to a value that is not a `Vec` is outside the translated subset")
+        elem = resolve(t0)[1]
+        pre_r, v_r, t_r = self.expr(a.expr, env, ctx, st, elem)
+        self.same(t_r, elem, a.line, "assignment of a value of another type")
+        before = st.get("rebinds", 0)
+        pre_i, v_i, t_i = self.expr(tgt.idx, env, ctx, st, USIZE)
+        if st.get("rebinds", 0) != before:
+            self.err(a.line, "an index expression that changes a variable through `&mut` is outside the translated subset")
+        if not is_int(t_i):
+            self.err(a.line, "an index that is not an integer (ranges / slices are outside the translated subset)")
+        self.unify(t_i, USIZE, a.line)
+        _, v_vec, _ = self.expr(place, env, ctx, st)          # the vector as it is now, after `e` has been evaluated
+        steps = pre_r + pre_i
+        if a.op != "=":
+            if a.op[0] not in "+-*/%" or not is_int(elem):
+                self.err(a.line, f"`{a.op}` on an element is outside the translated subset")
+            old = self.fresh(st)
+            steps.append(("bind", f"SrcVec.index {v_vec} {v_i}", old))
+            rhs = Node("bin", a.line, op=a.op[0], l=Node("rawval", a.line, val=old, ty=elem), r=Node("rawval", a.line, val=v_r, ty=elem))
+            p, v_r, _ = self.expr(rhs, env, ctx, st, elem)
+            steps += p
+        new = self.fresh(st)
+        steps.append(("bind", f"SrcVec.store {v_vec} {v_i} {v_r}", new))
+        self.tr.uses_vec = True
+        lines, env2 = self.assign(place, lambda old_, ty_: ([], new), env, a.line)
+        return self.wrap(steps, lines + go(env2), ind)
+
+    def vec_stmt(self, e, place, v0, elem, env, ctx, st, go, ind):
+        """V7 `v.resize(n, x);`, V8 `v.push(x);` with `v` a variable or a field of a variable: the place is rebound"""
+        want = [USIZE, elem] if e.name == "resize" else [elem]
+        if len(e.args) != len(want):
+            self.err(e.line, f"`.{e.name}` takes {len(want)} argument(s)")
+        pre, vals = [], []
+        for a, w in zip(e.args, want):
+            p, v, t = self.expr(a, env, ctx, st, w)
+            self.same(t, w, a.line, f"argument of `.{e.name}` has the wrong type")
+            pre += p
+            vals.append(v)
+        term = f"(SrcVec.resize {v0} {vals[0]} {vals[1]})" if e.name == "resize" else f"(Array.push {v0} {vals[0]})"
+        self.tr.uses_vec = True
+        n = self.fresh(st)
+        lines, env2 = self.assign(place, lambda old_, ty_: (self.lets(n, term, ind), n), env, e.line)
+        return self.wrap(pre, lines + go(env2), ind)
+
     def while_loop(self, s, env, ctx, st, go, ind):
         names = mentioned(s.body, mentioned(s.cond, []))
         vis = {v.rust: v for v in visible(env)}
         vars_ = [vis[n] for n in names if n in vis]      # in order of first occurrence in the loop: independent of where they were declared
         for v in vars_:
             t = resolve(v.ty)
-            if not (is_int(t) or t[0] == "struct"):
-                self.err(s.line, f"variable `{v.rust}` used in a `while` loop is neither an integer nor a struct")
+            if not (is_scalar(t) or t[0] == "struct"):
+                self.err(s.line, f"variable `{v.rust}` used in a `while` loop is neither an integer, a `bool`, a `Vec` nor a struct")
         state = [v for v in vars_ if v.mut]
         name = f"{self.fn.lean_name}_loop{self.loop_count}"
         self.loop_count += 1
         k = 0
-        lenv = []
+        lenv, ptypes = [], []
         for v in vars_:
             n = len(flat(v.val))
             ps = [f"p{k + i}" for i in range(n)]
             k += n
             lenv.append(Var(v.uid, v.rust, ps if isinstance(v.val, list) else ps[0], v.mut, v.ty))
+            ptypes += self.comps(v.ty, s.line)
         nparams = k
         lst = {"n": 0}
         extra = self.tr.extra_params(self)
@@ -1296,14 +1586,19 @@ class FnEmitter:
 
         def again(env2):
             return [" ".join([name, "fuel"] + extra + consts + vals_of(env2, vars_))]
-        lctx = Ctx("loop", again, None)
+        lctx = Ctx("loop", again, None, lambda env2: [".ok " + tup(vals_of(env2, state))])
+        self.loop_depth += 1
+        before = lst.get("rebinds", 0)
         pre, c = self.cond(s.cond, lenv, lctx, lst)
+        if lst.get("rebinds", 0) != before:
+            self.err(s.line, "a loop condition that changes a variable through `&mut` is outside the translated subset")
         body = self.block(s.body, lenv, lctx, lst, None, "      ")
+        self.loop_depth -= 1
         inner = self.wrap(pre, ["    if " + c + " then ("] + body + ["    ) else (", "      .ok " + tup(vals_of(lenv, state)), "    )"], "    ")
-        nstate = len(vals_of(lenv, state))
-        state_ty = "Unit" if not nstate else " × ".join("Int" for _ in range(nstate))
+        stypes = [c_ for v in state for c_ in self.comps(v.ty, s.line)]
+        state_ty = "Unit" if not stypes else " × ".join(stypes)
         nfix = len(extra) + len(consts)
-        sig = " → ".join(["Nat"] + ["IntTy"] * len(extra) + ["Int"] * (len(consts) + nparams) + [f"Except Panic ({state_ty})"])
+        sig = " → ".join(["Nat"] + ["IntTy"] * len(extra) + ["Int"] * len(consts) + ptypes + [f"Except Panic ({state_ty})"])
         text = [f"def {name} : {sig}",
                 "  | " + ", ".join(["0"] + ["_"] * (nfix + nparams)) + " => .error .fuel",
                 "  | " + ", ".join(["fuel + 1"] + extra + consts + [f"p{i}" for i in range(nparams)]) + " =>"] + inner
@@ -1331,7 +1626,7 @@ class FnEmitter:
             env.append(Var(self.new_uid(), "self", ps[0] if n == 1 else ps, fn.recv in ("refmut", "mutval"), sty))
         for name, mut, ty in fn.params:
             ty = self.norm_ty(ty)
-            if is_int(ty):
+            if is_scalar(ty):
                 val, k = f"p{k}", k + 1
             elif ty[0] == "struct":
                 n = len(self.fields_of(ty, fn.line))
@@ -1342,6 +1637,7 @@ class FnEmitter:
             env.append(Var(self.new_uid(), name, val, mut, ty))
         st = {"n": 0}
         rt = self.norm_ty(fn.ret)
+        ptypes = [c for v in env for c in self.comps(v.ty, fn.line)]
         self_uid = env[0].uid if fn.recv == "refmut" else None
 
         def self_vals(env2):
@@ -1350,19 +1646,31 @@ class FnEmitter:
         def on_value(env2, v, ty, line):
             if rt == UNIT:
                 self.err(line, "a value is returned from a function declared without a return type")
-            if is_int(rt):
-                self.unify(ty, rt, line)
-            elif resolve(ty) != rt:
-                self.err(line, "the returned value does not have the declared return type")
+            self.same(ty, rt, line, "the returned value does not have the declared return type")
             return ".ok " + tup(self_vals(env2) + flat(v))
         on_fall = (lambda env2: [".ok " + tup(self_vals(env2))]) if (rt == UNIT and self_uid is not None) else None
         ctx = Ctx("fn", on_fall, on_value)
+        fn.recursive = False
         lines = self.stmts(self.body.stmts, self.body.tail, self.body.line, env, ctx, st, None, "  ")
-        parts = (["Int"] * len(self_vals(env)) if self_uid is not None else []) + ([] if rt == UNIT else [self.lean_ret(rt)])
+        parts = (self.comps(env[0].ty, fn.line) if self_uid is not None else []) + ([] if rt == UNIT else [self.lean_ret(rt)])
         ret = " × ".join(parts) if parts else "Unit"
         extra = self.tr.extra_params(self)
         consts = [f"c{i}" for i in range(len(self.imp.consts))]
-        binders = (f" ({' '.join(extra)} : IntTy)" if extra else "") + (f" ({' '.join(consts + [f'p{i}' for i in range(k)])} : Int)" if consts or k else "")
+        names = consts + [f"p{i}" for i in range(k)]
+        types = ["Int"] * len(consts) + ptypes
+        if fn.recursive:                                                                    # F1: structural recursion on the fuel
+            sig = " → ".join(["Nat"] + ["IntTy"] * len(extra) + types + [f"Except Panic ({ret})"])
+            head = [f"def {fn.lean_name} : {sig}",
+                    "  | " + ", ".join(["0"] + ["_"] * (len(extra) + len(names))) + " => .error .fuel",
+                    "  | " + ", ".join(["fuel + 1"] + extra + names) + " =>"]
+            return self.defs + ["\n".join(head + ["  " + x for x in lines])]
+        groups = []                                                                         # consecutive parameters of one type share a binder
+        for n_, t_ in zip(names, types):
+            if groups and groups[-1][1] == t_:
+                groups[-1][0].append(n_)
+            else:
+                groups.append(([n_], t_))
+        binders = (f" ({' '.join(extra)} : IntTy)" if extra else "") + "".join(f" ({' '.join(ns)} : {t_})" for ns, t_ in groups)
         head = [f"def {fn.lean_name} (fuel : Nat){binders} : Except Panic ({ret}) :="]
         return self.defs + ["\n".join(head + lines)]
 
@@ -1378,6 +1686,8 @@ class Translator:
     def struct(self, name, line):
         if name not in self.prog.structs:
             raise TranslateError(self.file, line, f"struct `{name}` is not defined in this file")
+        if self.prog.structs[name].error is not None:
+            raise self.prog.structs[name].error
         return self.prog.structs[name]
 
     def impls_of(self, sname):
@@ -1418,10 +1728,16 @@ class Translator:
         if [t for _, t in imp.consts] != [t for _, t in s.consts] or imp.self_args != [n for n, _ in imp.consts]:
             raise TranslateError(self.file, imp.line, f"impl of `{s.name}` must repeat the struct's const parameters in order")
 
-    def request(self, fn, line, caller):
-        """Make sure `fn` is translated (callees first); -> its Lean name."""
-        if fn is caller or fn in self.in_progress:
-            raise TranslateError(self.file, line, f"recursion through `{fn.name}` is outside the translated subset")
+    def request(self, fn, line, caller, in_loop=False):
+        """Make sure `fn` is translated (callees first); -> its Lean name.  F1: a function may call itself (not from inside one of
+        its loops): it is then defined by structural recursion on `fuel`."""
+        if fn is caller:
+            if in_loop:
+                raise TranslateError(self.file, line, f"recursive call of `{fn.name}` inside a loop body is outside the translated subset")
+            fn.recursive = True
+            return fn.lean_name
+        if fn in self.in_progress:
+            raise TranslateError(self.file, line, f"mutual recursion through `{fn.name}` is outside the translated subset")
         self.translate_fn(fn)
         return fn.lean_name
 
@@ -1555,8 +1871,15 @@ open Rlib
 """
 
 
-def render(defs, ns, rel, pid, stem, failure=None):
+VEC_NOTE = ("`Vec<int>` / `Vec<bool>` values are `Array Int` / `Array Bool`; indexing, stores, `len`, `resize`, `vec![x; n]`, `(a..b).collect()` are the\n"
+            "fixed, hand-written functions `Rlib.SrcVec.*` of `Generated/VecPrelude.lean` (an index out of range is `Panic.index`).\n")
+
+
+def render(defs, ns, rel, pid, stem, failure=None, vec=False):
     text = HEADER.format(rel=rel, pid=pid, ns=ns, stem=stem)
+    if vec:                                                                                 # P4: only files that use a V rule import the prelude
+        text = text.replace("import RlibModel.Model.Common\n", "import RlibModel.Model.Common\nimport RlibModel.Generated.VecPrelude\n", 1)
+        text = text.replace("-/\nset_option", VEC_NOTE + "-/\nset_option", 1)
     if failure is not None:
         safe = failure.replace("-/", "- /").replace("/-", "/ -")
         text += f"/- TRANSLATION FAILED — no definitions; everything that refers to them stops compiling.\n   {safe} -/\n\n"
@@ -1581,7 +1904,7 @@ def run(src_path, out_path, ns, rel, pid, struct, wanted, macro=None):
                 "struct": struct, "macro": macro, "skipped_items": tr.prog.skipped}
         if macro:
             info["instances"] = ["/".join(a[1] for a in inv.args) for inv in tr.invocations]
-        text = render(defs, ns, rel, pid, stem)
+        text = render(defs, ns, rel, pid, stem, vec=getattr(tr, "uses_vec", False))
     except (OSError, TranslateError) as e:
         problems.append(SUBSET + f"rs2lean_typed: {e}" if isinstance(e, TranslateError) else f"rs2lean_typed: {e}")
         text = render([], ns, rel, pid, stem, failure=str(e))
